@@ -12,6 +12,8 @@ ANNOS  := A n (np (key val){np}){n}
 RETAB  := R n (pat ok nm (subject 0|1){nm}){n}
 DURTAB := D n (val ok int){n}
 POLICY := PS str | PF FUNC | PL n FUNC{n} | PO
+grps POOL n (POLICY LINES ANNOS){n} RETAB DURTAB
+dur str
 ```
 strings are `x<hex>`.
 -/
@@ -196,10 +198,48 @@ def handleGrp (ts : List String) : Option String := do
       | _ => "-"
     pure s!"ok pol={policyStr g.policy} members={membersStr g.members} sel={sel}"
 
+def pGroupDef : P GroupDef := fun ts => do
+  let (pv, ts) ← pPolicy ts
+  let (lines, ts) ← pLines ts
+  let (annos, ts) ← pAnnos ts
+  pure (⟨pv, lines, annos⟩, ts)
+
+def groupStr (g : Group) : String :=
+  let sel :=
+    match g.policy with
+    | .fixed i =>
+      match selectFixed i g.members with
+      | .ok m => toString m.1
+      | .error .emptyGroup => "empty"
+      | .error .outOfRange => "range"
+    | _ => "-"
+  s!"pol={policyStr g.policy} members={membersStr g.members} sel={sel}"
+
+/-- `grps POOL n (POLICY LINES ANNOS){n} RETAB DURTAB`: the whole group loop over one pool. -/
+def handleGrps (ts : List String) : Option String := do
+  let (pool, ts) ← pPool ts
+  let (defs, ts) ← counted pGroupDef ts
+  let (O, ts) ← pOracle ts
+  if !ts.isEmpty then none
+  match buildGroups O pool defs with
+  | .error (.policy e) => pure ("perr " ++ perrStr e)
+  | .error (.filter e) => pure ("ferr " ++ errStr e)
+  | .ok gs => pure ("ok " ++ " | ".intercalate (gs.map groupStr))
+
+/-- `dur x<hex>`: the mirrored `time.ParseDuration`. -/
+def handleDur (ts : List String) : Option String := do
+  let (s, ts) ← pStr ts
+  if !ts.isEmpty then none
+  match parseDuration s with
+  | some d => pure s!"ok {d}"
+  | none => pure "err"
+
 def handle (line : String) : String :=
   match words line with
   | "fa" :: ts => (handleFa ts).getD "bad-op"
   | "grp" :: ts => (handleGrp ts).getD "bad-op"
+  | "grps" :: ts => (handleGrps ts).getD "bad-op"
+  | "dur" :: ts => (handleDur ts).getD "bad-op"
   | _ => "bad-op"
 
 def main : IO Unit := lineLoop handle
